@@ -276,20 +276,31 @@ pub mod boundary {
         }
 
         /// Check whether this list contains a certain value.
-        pub fn contains(&self, item: &T) -> bool {
-            let item_ptr = NonNull::from_ref(item).cast::<()>();
+        pub fn contains(&self, item: &T) -> bool
+        where
+            T: Clone,
+        {
+            // The list stores `T::Transformed`, which can have another
+            // layout than `T`, so that is what we have to compare with.
+            let item = item.clone().transform();
+            let item_ptr = NonNull::from_ref(&item).cast::<()>();
 
-            // SAFETY: We have a valid value behind the pointer and forget
-            // the value to ensure that we give ownership.
+            // SAFETY: We have a valid transformed value behind the pointer,
+            // which we keep and drop ourselves.
             unsafe { self.inner.contains(item_ptr) }
         }
 
         /// Returns the index of the first element that is equal to the given value.
-        pub fn index(&self, item: &T) -> Option<usize> {
-            let item_ptr = NonNull::from_ref(item).cast::<()>();
+        pub fn index(&self, item: &T) -> Option<usize>
+        where
+            T: Clone,
+        {
+            // See `contains`.
+            let item = item.clone().transform();
+            let item_ptr = NonNull::from_ref(&item).cast::<()>();
 
-            // SAFETY: We have a valid value behind the pointer and forget
-            // the value to ensure that we give ownership.
+            // SAFETY: We have a valid transformed value behind the pointer,
+            // which we keep and drop ourselves.
             unsafe { self.inner.index(item_ptr) }
         }
 
